@@ -100,6 +100,12 @@ def big_set_zero(m, mt, args, tys, dty):
     return Agg('tuple', '()', [])
 
 
+@summary(r'<(?:%s|%s|num_bigint::Sign|u8|char|f32|f64|bool) as Clone>::clone_from' % (BIG, INT))
+def generic_clone_from(m, mt, args, tys, dty):
+    args[0].set(copy_val(deref(args[1])))
+    return Agg('tuple', '()', [])
+
+
 @summary(r'<%s as Clone>::clone' % BIG)
 def big_clone(m, mt, args, tys, dty):
     return deref(args[0])
@@ -773,9 +779,9 @@ class U32Digits:
 WORD_BOUND = [3]
 
 
-@summary(r'(?:num_bigint::)?BigUint::iter_u32_digits')
+@summary(r'(?:num_bigint::)?Big(?:Uint|Int)::iter_u32_digits')
 def big_iter_u32(m, mt, args, tys, dty):
-    x = deref(args[0])
+    x = zabs(deref(args[0]))
     W = WORD_BOUND[0]
     if not is_sym(x):
         ws = []
@@ -796,9 +802,9 @@ def big_iter_u32(m, mt, args, tys, dty):
     return U32Digits(ws)
 
 
-@summary(r'(?:num_bigint::)?BigUint::iter_u64_digits')
+@summary(r'(?:num_bigint::)?Big(?:Uint|Int)::iter_u64_digits')
 def big_iter_u64(m, mt, args, tys, dty):
-    x = deref(args[0])
+    x = zabs(deref(args[0]))          # BigInt::iter_u64_digits iterates over the magnitude
     W = max(2, (WORD_BOUND[0] + 1) // 2)
     if not is_sym(x):
         ws = []
